@@ -1253,7 +1253,7 @@ func main() {
 	// a call with a number of arguments its migrator does not expect: either MigrateTemplate reports an error (and
 	// copies the expression) or every expression of its output parses
 	for _, tpl := range []string{`@(TRUE(1))`, `@(WEEKDAY("1-7-2014", 2))`, `@(LEFT("abc"))`, `@(DAYS("1-7-2014"))`, `@(DAY())`, `Hi @(HOUR()) there`, `@(TIME(1, 2))`,
-		`@(WORD("a b", 1, TRUE, 4))`, `@(POWER(1))`, `@(POWER(1, 2, 3))`, `@(1 + FIRST_WORD("a b", 1))`} {
+		`@(WORD("a b", 1, TRUE, 4))`, `@(POWER(1))`, `@(POWER(1, 2, 3))`, `@(1 + FIRST_WORD("a b", 1))`, `@(FIXED())`, `@(SUM())`, `@(WORD())`, `@(FIELD())`} {
 		res.OracleChecks++
 		out, hasErr, _ := migrateReal(tpl, options{})
 		if hasErr {
@@ -1262,9 +1262,72 @@ func main() {
 		for _, s := range scanReal(out, flows.RunContextTopLevels) {
 			if s.T == 2 {
 				if _, ok := parseReal(s.S); !ok {
-					failc(res, "parse:wrong-arity-call-migrates-to-garbage", map[string]any{"template": tpl}, fmt.Sprintf("%q migrates without error to %q, whose expression %q does not parse", tpl, out, s.S))
+					cls := "parse:wrong-arity-call-migrates-to-garbage"
+					if strings.Contains(tpl, "()") {
+						cls = "parse:call-without-required-parameter"
+					}
+					failc(res, cls, map[string]any{"template": tpl}, fmt.Sprintf("%q migrates without error to %q, whose expression %q does not parse", tpl, out, s.S))
 					break
 				}
+			}
+		}
+	}
+
+	// second hunt wave ---------------------------------------------------------------------------------------------
+	// a path segment spelled like a keyword of the new syntax: either an error is reported or the output parses
+	for _, tpl := range []string{`@extra.votes.true`, `@flow.null.category`, `@contact.true`, `@(extra.votes.true - extra.votes.false)`, `@(flow.false)`} {
+		res.OracleChecks++
+		out, hasErr, _ := migrateReal(tpl, options{})
+		if hasErr {
+			continue
+		}
+		for _, s := range scanReal(out, flows.RunContextTopLevels) {
+			bad := false
+			if s.T == 2 {
+				_, ok := parseReal(s.S)
+				bad = !ok
+			} else if s.T == 1 {
+				_, ok := parseReal(s.S)
+				bad = !ok
+			}
+			if bad {
+				failc(res, "parse:keyword-path-segment", map[string]any{"template": tpl}, fmt.Sprintf("%q migrates without error to %q, whose expression %q does not parse", tpl, out, s.S))
+				break
+			}
+		}
+	}
+	// @("") is removed: the identifier before it must not run into the text after it
+	for _, c := range [][2]string{{`@contact.s1@("")s`, "foxs"}, {`your @(contact.n1)@("")th birthday`, "your 3th birthday"}, {`@contact.s1@("")@("").x`, "fox.x"}} {
+		res.OracleChecks++
+		out, hasErr, _ := migrateReal(c[0], options{})
+		got, evErr := evalMigrated(out, []varDecl{{Name: "contact.n1", V: rvInt(3)}, {Name: "contact.s1", V: rvText("fox")}})
+		if hasErr || evErr || got != c[1] {
+			failc(res, "rescan:identifier-glued-across-removed-empty-expression", map[string]any{"template": c[0]}, fmt.Sprintf("legacy %q denotes %q; migrated %q evaluates to %q (evaluation error %v)", c[0], c[1], out, got, evErr))
+		}
+	}
+	// nested datetime + time: the migrated text must not grow beyond 100 times the legacy text (+1000)
+	{
+		e := `NOW()`
+		for i := 0; i < 9; i++ {
+			e = `NOW() + TIME(HOUR(` + e + `), 0, 0)`
+		}
+		res.OracleChecks++
+		out, hasErr, _ := migrateReal("@("+e+")", options{})
+		if !hasErr && len(out) > 100*len(e)+1000 {
+			failc(res, "growth:nested-datetime-plus-time-doubles", map[string]any{"template": "@(" + e + ")"}, fmt.Sprintf("a legacy expression of %d bytes migrates to %d bytes (the time operand is written twice at every level)", len(e), len(out)))
+		}
+	}
+	// a long flat sum: the migrated nesting of legacy_add must still parse (or an error be reported)
+	{
+		e := "1" + strings.Repeat(" + 1", 850)
+		res.OracleChecks++
+		out, hasErr, _ := migrateReal("@("+e+")", options{})
+		if !hasErr {
+			segs := scanReal(out, flows.RunContextTopLevels)
+			if len(segs) != 1 || segs[0].T != 2 {
+				failc(res, "parse:flat-sum-exceeds-new-parser-depth", map[string]any{"template": "@(1 + 1 ... 850 times)"}, "the migrated template is not one expression")
+			} else if _, ok := parseReal(segs[0].S); !ok {
+				failc(res, "parse:flat-sum-exceeds-new-parser-depth", map[string]any{"template": "@(1 + 1 ... 850 times)"}, fmt.Sprintf("1 + 1 + ... with 850 plus signs migrates without error to legacy_add nested 850 deep (%d bytes), which the new parser rejects as too deeply nested", len(out)))
 			}
 		}
 	}
